@@ -13,7 +13,7 @@ pub fn spec(tier: Tier) -> RunSpec {
 boundary-cube (every 3-byte group over a 48-value boundary set), random-groups (seeded 3-byte groups), random-strings (proptest, lengths covering every residue mod 3, \
 quick ≤ 4 KiB, thorough up to 64 KiB±2; section encode-long: inputs of 4094 .. 70 000 bytes - lengths around the powers of two, every residue mod 3 - through the encoder alone, compared with the reference encoder), negatives (every single-character replacement class of valid text by a character outside [A-Za-z0-9+/=]). \
 Oracle: harness's own table-driven RFC 4648 encoder (M-B64) for encode, decode(encode(x)) == x, negatives must be Err. \
-Non-trivial = input length >= 1 (every group exercises the bit masks); distinct by input bytes (hash set for generated cases, by construction for enumerations).",
+Section low-entropy-strings: alphabets of one to three symbols (zero, 0xFF, a letter, a random byte), runs, repeated short blocks. Non-trivial = input length >= 1 (every group exercises the bit masks); distinct by input bytes (hash set for generated cases, by construction for enumerations).",
         &["M-B64, the harness's 20-line RFC 4648 encoder, is correct (checked against the RFC 4648 section 10 vectors at start-up)",
           "Base64::encode/decode are pure functions of their argument"],
         if tier == Tier::Quick { 600 } else { 7200 },
@@ -181,6 +181,16 @@ pub fn run(ctx: &Ctx) {
         ]
     }).prop_map(|v| Case::RoundTrip { data: Bytes(v) });
     ctx.prop("random-strings", ctx.share(ctx.scale(12_000, 200_000)), strat, eval);
+
+    // low-entropy strings: bytes from an alphabet of one to three symbols (zero, 0xFF, one letter, one random byte), and a short block repeated - equal and
+    // zero-led groups at different positions, runs longer than a group, a tail that repeats the start of an earlier group
+    let symbol = prop_oneof![3 => Just(0u8), 1 => Just(0xffu8), 1 => Just(b'A'), 2 => any::<u8>()];
+    let low = prop_oneof![
+        3 => (proptest::collection::vec(symbol.clone(), 1..=3), proptest::collection::vec(any::<u8>(), 0..200)).prop_map(|(alpha, picks)| picks.iter().map(|p| alpha[*p as usize % alpha.len()]).collect::<Vec<u8>>()),
+        2 => (symbol.clone(), 0usize..700).prop_map(|(b, n)| vec![b; n]),
+        2 => (proptest::collection::vec(symbol, 1..=4), 0usize..120, 0usize..4).prop_map(|(block, times, cut)| { let mut v: Vec<u8> = vec![]; for _ in 0..times { v.extend_from_slice(&block); } let keep = v.len().saturating_sub(cut); v.truncate(keep); v }),
+    ].prop_map(|v| Case::RoundTrip { data: Bytes(v) });
+    ctx.prop("low-entropy-strings", ctx.share(ctx.scale(12_000, 200_000)), low, eval);
 
     // long inputs through the encoder alone: lengths around the powers of two up to 64 KiB (every residue mod 3) and random lengths up to 70 000
     let long_len = prop_oneof![
